@@ -1,7 +1,8 @@
 """Stub of `re` for enzyme patterns over tokenised residue strings.
 
-Grammar (one consumed residue, optional look-around):
-    pattern := [ '(?<=' cls ')' | '(?<!' cls ')' ] cls [ '(?=' cls ')' | '(?!' cls ')' ]
+Grammar (one consumed residue with optional look-around, or a zero-width pattern made of
+look-arounds only, e.g. Asp-N '(?=D)'):
+    pattern := [ '(?<=' cls ')' | '(?<!' cls ')' ] [ cls ] [ '(?=' cls ')' | '(?!' cls ')' ]
     cls     := '[' chars ']' | '[^' chars ']' | '\\w' | '.' | literal
 Residues are assumed to be upper-case letters, so \\w and . match every residue.
 `selftest()` compares the matcher with the real `re` on concrete strings."""
@@ -54,7 +55,12 @@ def parse(p):
             raise Unsupported("enzyme pattern %r" % p)
         behind = (c, neg)
         i = j + 1
-    core_cls, i = _parse_cls(p, i)
+    if i >= len(p) or p.startswith("(?=", i) or p.startswith("(?!", i):
+        core_cls = None  # zero-width pattern
+        if i >= len(p) and behind is None:
+            raise Unsupported("empty enzyme pattern")
+    else:
+        core_cls, i = _parse_cls(p, i)
     if i < len(p):
         if p.startswith("(?=", i) or p.startswith("(?!", i):
             neg = p[i + 2] == "!"
@@ -83,8 +89,28 @@ class Rx:
         self.pattern = pattern
         self.behind, self.cls, self.ahead = parse(pattern)
 
+    @property
+    def zero_width(self):
+        return self.cls is None
+
+    def site_cond(self, seq, k):
+        """condition that some match ENDS at offset k of seq (0 <= k <= len(seq))"""
+        n = len(seq)
+        if not self.zero_width:
+            return self.cond(seq, k - 1) if k >= 1 else False
+        c = True
+        if self.behind is not None:
+            b, neg = self.behind
+            c = s_and(c, neg if k == 0 else (s_not(b.test(seq[k - 1])) if neg else b.test(seq[k - 1])))
+        if self.ahead is not None:
+            a, neg = self.ahead
+            c = s_and(c, neg if k >= n else (s_not(a.test(seq[k])) if neg else a.test(seq[k])))
+        return c
+
     def cond(self, seq, i):
         """condition (bool / SBool) that a match consumes residue i of seq"""
+        if self.zero_width:
+            raise Unsupported("cond() of a zero-width pattern")
         n = len(seq)
         c = self.cls.test(seq[i])
         if self.behind is not None:
@@ -110,6 +136,12 @@ class Rx:
         if endpos is not None:
             s = s[:max(int(endpos), 0)] if int(endpos) >= 0 else s[:0]
         start = max(int(pos), 0)
+        if self.zero_width:
+            for i in range(start, len(s) + 1):
+                c = self.site_cond(s, i)
+                if c if isinstance(c, bool) else bool(c):
+                    yield Match(i, i)
+            return
         for i in range(start, len(s)):
             c = self.cond(s, i)
             if c if isinstance(c, bool) else bool(c):
